@@ -182,6 +182,33 @@ pub fn rss_mb() -> usize {
 
 const KEEP_PER_CLASS: usize = 3;
 
+/// Wall-clock budget of the whole check run (all explorations of one engine process). On the unchanged tree
+/// the quick tier stays far below it; it exists for trees in which the state space no longer closes (a change
+/// added a counter to the library: the derived struct hash puts it into the key and every closure would run
+/// into its own cap, one after the other). When it is used up every further exploration gets a few seconds
+/// and reports `exhaustive: false` with the cap "check budget".
+pub static BUDGET_END: std::sync::OnceLock<Instant> = std::sync::OnceLock::new();
+pub const BUDGET_GRACE_S: f64 = 3.0;
+
+pub fn set_budget(secs: f64) {
+    let _ = BUDGET_END.set(Instant::now() + std::time::Duration::from_secs_f64(secs));
+}
+
+/// (wall cap for an exploration starting now, whether the check budget is what limits it)
+fn budgeted_wall(caps: &Caps) -> (f64, bool) {
+    match BUDGET_END.get() {
+        None => (caps.max_wall_s, false),
+        Some(end) => {
+            let left = end.saturating_duration_since(Instant::now()).as_secs_f64().max(BUDGET_GRACE_S);
+            if left < caps.max_wall_s {
+                (left, true)
+            } else {
+                (caps.max_wall_s, false)
+            }
+        }
+    }
+}
+
 struct Cand<K, S> {
     ev: u16,
     sub: u16,
@@ -199,6 +226,7 @@ struct Expanded<K, S> {
 
 pub fn explore<M: Model>(m: &M, caps: &Caps, seed: u64) -> Outcome {
     let t0 = Instant::now();
+    let (max_wall_s, by_budget) = budgeted_wall(caps);
     let events = m.events();
     assert!(events.len() < u16::MAX as usize);
     let mut out = Outcome {
@@ -286,9 +314,9 @@ pub fn explore<M: Model>(m: &M, caps: &Caps, seed: u64) -> Outcome {
             out.cap_hit = Some(format!("state cap {}", caps.max_states));
             break;
         }
-        if t0.elapsed().as_secs_f64() > caps.max_wall_s {
+        if t0.elapsed().as_secs_f64() > max_wall_s {
             exhaustive = false;
-            out.cap_hit = Some(format!("wall cap {} s", caps.max_wall_s));
+            out.cap_hit = Some(if by_budget { format!("check budget (wall cap {:.0} s left for this exploration)", max_wall_s) } else { format!("wall cap {} s", caps.max_wall_s) });
             break;
         }
         let rss = rss_mb();
